@@ -27,6 +27,7 @@ type c03flow struct {
 	host    string
 	segs    []string // literal, "{p}"; trailing wildcard in `wild`
 	wild    bool
+	slash   bool // the filter URL is written with a trailing slash
 	methods []string
 	header  string // required value of x-h ("" = none)
 	header2 string // a second listed value for the same key: alternatives
@@ -41,6 +42,9 @@ func (f c03flow) url() string {
 	}
 	if f.wild {
 		u += "/*"
+	}
+	if f.slash && !f.wild {
+		u += "/" // another spelling of the same pattern
 	}
 	return u
 }
@@ -237,6 +241,7 @@ func runC03(s *kernel.Sim) {
 		if tp.Chance(1, 4) {
 			f.status = [][]int{{200}, {500}, {200, 404}}[tp.Choose(3)]
 		}
+		f.slash = tp.Chance(1, 6)
 		seenURL[f.url()]++
 		flows = append(flows, f)
 	}
